@@ -239,6 +239,13 @@ func seq(in, out string) {
 		{"plain-elem-send-defined", "c = make(chan int64, 1)\nc <- lv\nx = <-c\ntypeOf(x)", "int64"},
 		{"defined-elem-goroutine", "c = make(chan Level)\ngo func() {\n for i = 0; i < 3; i++ {\n  c <- i\n }\n close(c)\n}()\nfor v in c {\n got += levelName(v)\n}\ngot", []interface{}{"Level(0)", "Level(1)", "Level(2)"}},
 		{"duration-elem", "time = import(\"time\")\nc = make(chan time.Duration, 1)\nc <- 1500000000\ntoString(<-c)", "1.5s"},
+		// channels held in struct fields, maps and lists: two values made from ONE type hold two channels; each pipeline delivers its own items
+		{"struct-fields-two-values", "make(type PC, make(struct { C chan int64 }))\nx = make(PC)\ny = make(PC)\ngo func() {\n for i = 0; i < 3; i++ {\n  x.C <- i\n }\n close(x.C)\n}()\ngo func() {\n for i = 10; i < 13; i++ {\n  y.C <- i\n }\n close(y.C)\n}()\nga = []\nfor v in x.C {\n ga += v\n}\ngb = []\nfor v in y.C {\n gb += v\n}\n[ga, gb]",
+			[]interface{}{[]interface{}{int64(0), int64(1), int64(2)}, []interface{}{int64(10), int64(11), int64(12)}}},
+		{"struct-literal-type-twice", "x = make(struct { C chan int64 })\ny = make(struct { C chan int64 })\nz = make(struct { C chan int64 })\nx.C = make(chan int64, 1)\ny.C = make(chan int64, 1)\nz.C = make(chan int64, 1)\nx.C <- 1\ny.C <- 2\nz.C <- 3\n[<-z.C, <-y.C, <-x.C]", []interface{}{int64(3), int64(2), int64(1)}},
+		{"struct-new-twice", "make(type PD, make(struct { C chan int64, N int64 }))\nx = new(PD)\ny = new(PD)\nx.C = make(chan int64, 2)\ny.C = make(chan int64, 2)\nx.C <- 1\ny.C <- 2\nx.C <- 3\nclose(x.C)\nfor v in x.C {\n got += v\n}\ngot += <-y.C\ngot", []interface{}{int64(1), int64(3), int64(2)}},
+		{"chans-in-map", "m = {}\nm.p = make(chan int64, 2)\nm.q = make(chan int64, 2)\nm.p <- 1\nm.q <- 2\nm.p <- 3\n[<-m.p, <-m.q, <-m.p]", []interface{}{int64(1), int64(2), int64(3)}},
+		{"chans-in-typed-slice", "cs = make([]chan int64, 0)\ncs += make(chan int64, 1)\ncs += make(chan int64, 1)\ncs[0] <- 5\ncs[1] <- 6\n[<-cs[1], <-cs[0]]", []interface{}{int64(6), int64(5)}},
 	}
 	for _, t := range two {
 		pre := "a = make(chan int64, 3)\na <- 1\na <- 2\na <- 3\nclose(a)\nb = make(chan int64, 3)\nb <- 10\nb <- 20\nb <- 30\nb1 = make(chan int64, 1)\nb1 <- 7\nclose(b1)\nd = make(chan int64, 3)\ngot = []\n"
@@ -263,8 +270,85 @@ func seq(in, out string) {
 			sum.Mismatches = append(sum.Mismatches, Mismatch{What: "one invocation working on several channels / channels of defined element types (" + t.name + ")", Src: pre + t.src, Exp: t.exp, Got: g, Case: SeqCase{Cap: 3, Ops: []string{"two:" + t.name}}})
 		}
 	}
+	detached(&sum)
 	b, _ := json.Marshal(sum)
 	os.WriteFile(out, b, 0o644)
+}
+
+// detached: goroutines a script started run concurrently with their caller -- also when the caller is THROUGH: the host consumes (or feeds) afterwards, the
+// way an embedding program does that asks a script for a channel, or a REPL that executes one line at a time.
+func detached(sum *Summary) {
+	type sc struct {
+		name string
+		srcs []string // executed one after the other on one environment (plain vm.Execute)
+		feed []int64  // sent by the host on "inq" after the last source returned, then closed
+		exp  []interface{}
+	}
+	scs := []sc{
+		{"producer-outlives-its-caller", []string{"outq = make(chan int64)\ngo func() {\n for i = 0; i < 5; i++ {\n  outq <- i * 10\n }\n close(outq)\n}()\n1"}, nil, []interface{}{int64(0), int64(10), int64(20), int64(30), int64(40)}},
+		{"pipeline-left-running", []string{"mid = make(chan int64)\noutq = make(chan int64)\ngo func() {\n for i = 1; i <= 4; i++ {\n  mid <- i\n }\n close(mid)\n}()\ngo func() {\n for v in mid {\n  outq <- v * v\n }\n close(outq)\n}()\n\"started\""}, nil,
+			[]interface{}{int64(1), int64(4), int64(9), int64(16)}},
+		{"consumer-fed-after-return", []string{"outq = make(chan int64)\ngo func() {\n for v in inq {\n  outq <- v * 2\n }\n close(outq)\n}()"}, []int64{1, 2, 3}, []interface{}{int64(2), int64(4), int64(6)}},
+		{"one-line-at-a-time", []string{"outq = make(chan int64)", "func prod(n) {\n for i = 0; i < n; i++ {\n  outq <- i\n }\n close(outq)\n}", "go prod(3)", "x = 1"}, nil, []interface{}{int64(0), int64(1), int64(2)}},
+		{"started-in-function", []string{"outq = make(chan int64, 1)\nfunc start() {\n go func() {\n  for i = 0; i < 3; i++ {\n   outq <- i + 100\n  }\n  close(outq)\n }()\n return 0\n}\nstart()"}, nil, []interface{}{int64(100), int64(101), int64(102)}},
+	}
+	for _, c := range scs {
+		e := env.NewEnv()
+		core.Import(e)
+		inq := make(chan int64)
+		e.Define("inq", inq)
+		var err error
+		for _, src := range c.srcs {
+			if _, err = vm.Execute(e, nil, src); err != nil {
+				break
+			}
+		}
+		sum.Cases++
+		sum.Runs++
+		var got []interface{}
+		what := ""
+		if err != nil {
+			what = "error: " + err.Error()
+		} else {
+			time.Sleep(2 * time.Millisecond) // the caller has been through for a while
+			if c.feed != nil {
+				go func() {
+					for _, v := range c.feed {
+						select {
+						case inq <- v:
+						case <-time.After(3 * time.Second):
+							return
+						}
+					}
+					close(inq)
+				}()
+			}
+			o, _ := e.Get("outq")
+			outq, _ := o.(chan int64)
+			deadline := time.After(5 * time.Second)
+		recv:
+			for outq != nil {
+				select {
+				case v, ok := <-outq:
+					if !ok {
+						break recv
+					}
+					got = append(got, v)
+				case <-deadline:
+					what = "the goroutines the script started stopped delivering after their caller had returned"
+					break recv
+				}
+			}
+		}
+		if what != "" || !reflect.DeepEqual(norm(got), norm(c.exp)) {
+			sum.NMismatch++
+			var g interface{} = got
+			if what != "" {
+				g = fmt.Sprintf("%v (%s)", got, what)
+			}
+			sum.Mismatches = append(sum.Mismatches, Mismatch{What: "goroutines that outlive the call that started them (" + c.name + ")", Src: strings.Join(c.srcs, "\n---\n"), Exp: c.exp, Got: g, Case: SeqCase{Cap: 0, Ops: []string{"detached:" + c.name}}})
+		}
+	}
 }
 
 // defined scalar types as channel element types
